@@ -219,6 +219,29 @@ class SignEval:
                     acc |= sx
                 if hs and known and acc:
                     base = acc
+                if not hs:
+                    # a local closure called by name in the function that defines it (`let mag = |d| ..; mag(x)`): the sign of the
+                    # argument at every call, under the tests that dominate that call
+                    par = self.prog.by_crate[fn.crate].get(fn.parent)
+                    acc, n_sites = frozenset(), 0
+                    if par is not None and depth < 30:
+                        locs = {st['dst']['l'] for b in par.blocks.values() for st in b['stmts']
+                                if st['r']['rv'] == 'agg' and st['r']['kind'] == 'closure:' + fn.name and not st['dst']['p']}
+                        for c2 in par.calls:
+                            if c2.short not in ('call', 'call_mut', 'call_once') or len(c2.args) != 2 or not is_place(c2.args[1]):
+                                continue
+                            if not (set(mir.provenance(par, c2.args[0]).locals) | {c2.arg_local(0)}) & locs:
+                                continue
+                            tup = par.single_def(c2.args[1]['pl']['l'])
+                            if not (tup and tup[2] == 'stmt' and tup[3]['r']['rv'] == 'agg' and tup[3]['r']['kind'] == 'tuple' and len(tup[3]['r']['ops']) > l - 2):
+                                acc, n_sites = frozenset(), 0
+                                break
+                            ev2 = SignEval(self.prog, par)
+                            ev2.set_site(c2.bb)
+                            acc |= ev2.eval_op(tup[3]['r']['ops'][l - 2], depth + 1)
+                            n_sites += 1
+                    if n_sites and acc:
+                        base = acc
             # otherwise nothing is known about a parameter except what the dominating sign tests say (`if is_negative(&x) { .. }`)
             self.memo[l] = self.refine_local(l, base) if fn.is_param(l) else TOP
             return self.memo[l]
@@ -442,6 +465,21 @@ class SignEval:
         return sign
 
 
+def _fn_value_of(prog, fn, operand):
+    """the body behind a closure operand or a function item handed over as a value"""
+    g = mir._closure_fn_of(prog, fn, operand)
+    if g is not None:
+        return g
+    if operand.get('k') == 'const':
+        for key in ('def', 'v', 'ty'):
+            nm = str(operand.get(key) or '')
+            nm = re.sub(r'^fn\([^)]*\)[^{]*\{|\}$', '', nm).strip()
+            h = prog.resolve(nm, fn.crate) if nm else None
+            if h is not None and h.kind in ('Fn', 'AssocFn'):
+                return h
+    return None
+
+
 def payload_sign_local(prog, fn, l, path, depth=0, _seen=None):
     """sign of the Decimal found at `path` (variants, outermost first, e.g. ('Ok', 'Some')) inside the Option / Result held by
     local l of fn; None when unknown. The value is followed to where it was built: `Ok(x)` / `Some(x)` literals (x judged at that
@@ -506,9 +544,10 @@ def payload_sign_local(prog, fn, l, path, depth=0, _seen=None):
                 # `res.map(Some)`: the payload is wrapped once more
                 sx = payload_sign_local(prog, fn, c.args[0]['pl']['l'], (path[0],) + path[2:], depth + 1, _seen)
             elif c.short in ('map', 'and_then') and len(c.args) == 2 and path and path[0] in ('Ok', 'Some') and \
-                    re.search(r'^std::(option::Option|result::Result)::<', c.callee) and mir._closure_fn_of(prog, fn, c.args[1]) is not None:
-                # `res.map(|d| ..)`: the new payload is what the closure returns (its argument is the old payload, see eval_local)
-                g2 = mir._closure_fn_of(prog, fn, c.args[1])
+                    re.search(r'^std::(option::Option|result::Result)::<', c.callee) and _fn_value_of(prog, fn, c.args[1]) is not None:
+                # `res.map(|d| ..)` / `res.and_then(helper)`: the new payload is what the closure or function returns (a closure's
+                # argument is the old payload, see eval_local)
+                g2 = _fn_value_of(prog, fn, c.args[1])
                 if c.short == 'and_then':
                     sx = payload_sign_local(prog, g2, 0, path, depth + 1, _seen)
                 elif len(path) > 1:
@@ -613,7 +652,17 @@ def requirements_hold(fn, ev, tf, entry, prog=None):
                     ev2.set_site(c.bb)
                     return any(pred == req['test'] and truth == req['truth'] and any(f == req['field'] for of, f in fields)
                                for (locals_, fields, pred, truth) in ev2.tests)
-                if sites and all(site_has(c) for c in sites):
+                def site_filtered(c):
+                    # the helper is called from a closure whose item passed a `filter` that made the test
+                    if c.fn.kind != 'Closure':
+                        return False
+                    def atom2(g, x, req=req):
+                        if x.short == req['test'] and x.args and any(f == req['field'] for of, f in mir.provenance(g, x.args[0]).fields) and \
+                                not mir.provenance(g, x.args[0]).upvars:
+                            return ('the-test', 'bool')
+                        return None
+                    return mir.filter_guarantees(prog, c.fn, atom2).get('the-test') is req['truth']
+                if sites and all(site_has(c) or site_filtered(c) for c in sites):
                     hit = True
             if not hit and prog is not None and fn.kind == 'Closure':
                 # the test was made by a `filter` the item passed before it reached this closure
